@@ -3,6 +3,8 @@ import Ekit.Props.C06
 import Ekit.Props.C06HW
 import Ekit.Props.C06Heap
 import Ekit.Props.C06Rev
+import Driver.Ev.CLQSoundC06
+import Driver.Ev.LockWrappedSoundC06
 open Ekit.Props.C06
 #print axioms c06_clq_linearizable
 #print axioms c06_clq_invariants
@@ -92,3 +94,32 @@ open Ekit.Props.C06
 -- the event replayer of ConcurrentPriorityQueue (Driver/Ev/LockWrapped.lean) repeats the three glue definitions of
 -- Props/C06Heap.lean (the driver must not import Props): they are the same
 example : @Driver.Ev.CPQ.rawParams = @Ekit.Props.C06.rawParams := rfl
+-- soundness of the event replayers clq / cow / clist / cpq (Driver/Ev/CLQSound.lean, LockWrappedSound.lean)
+#print axioms Driver.Ev.CLQ.clq_sync_sound
+#print axioms Driver.Ev.CLQ.clq_sync_nocrash
+#print axioms Driver.Ev.CLQ.clq_inv_sound
+#print axioms Driver.Ev.CLQ.clq_res_sound
+#print axioms Driver.Ev.CLQ.event_clq
+#print axioms Driver.Ev.CLQ.clq_replay_sound
+#print axioms Driver.Ev.CLQ.clq_replay_reachable
+#print axioms Driver.Ev.CLQ.clq_replay_quiescent
+#print axioms Driver.Ev.CLQ.c06_clq_evtrace_linearizable
+#print axioms Driver.Ev.CLQ.c06_clq_evtrace_invariants
+#print axioms Driver.Ev.CLQ.c06_clq_evtrace_quiescent
+#print axioms Driver.Ev.LW.lw_sync_sound
+#print axioms Driver.Ev.LW.lw_inv_sound
+#print axioms Driver.Ev.LW.lw_res_sound
+#print axioms Driver.Ev.LW.step_map
+#print axioms Driver.Ev.LW.PRun.map
+#print axioms Driver.Ev.Cow.event_cow
+#print axioms Driver.Ev.Cow.cow_replay_sound
+#print axioms Driver.Ev.Cow.cow_replay_reachable
+#print axioms Driver.Ev.Cow.c06_cow_evtrace_linearizable
+#print axioms Driver.Ev.Cow.c06_cow_evtrace_invariants
+#print axioms Driver.Ev.CList.event_clist
+#print axioms Driver.Ev.CList.clist_replay_prun
+#print axioms Driver.Ev.CList.clist_replay_sound
+#print axioms Driver.Ev.CList.c06_clist_evtrace_linearizable
+#print axioms Driver.Ev.CList.c06_clist_evtrace_invariants
+#print axioms Driver.Ev.CPQ.event_cpq
+#print axioms Driver.Ev.CPQ.cpq_replay_prun_partial
